@@ -416,7 +416,7 @@ def replay_inventory(w):
     f = _parserh.parse_concrete(list(w["program"]))
     inv = _json.loads(_json.dumps(inventory(f)))
     facts = _facts(w["template"], f)
-    return inv != EXPECTED[w["template"]] or bool(facts), {"ford": inv, "declared": EXPECTED[w["template"]], "facts_not_reported": facts}
+    return inv != _sorted_inv(EXPECTED[w["template"]]) or bool(facts), {"ford": inv, "declared": EXPECTED[w["template"]], "facts_not_reported": facts}
 
 
 def _first_diff(a, b, path=""):
@@ -512,6 +512,38 @@ TEMPLATES = {
         ["end interface", "END INTERFACE", "endinterface"],
         ["end module m"],
     ],
+    "units": [
+        ["program main", "PROGRAM MAIN", "program  main"],
+        ["integer :: n", "INTEGER :: N"],
+        ["contains", "CONTAINS"],
+        ["subroutine inner()", "SUBROUTINE INNER()", "subroutine inner"],
+        ["end subroutine inner", "end", "endsubroutine", "END SUBROUTINE INNER"],
+        ["end program main", "end program", "END", "endprogram main", "End Program Main"],
+        ["submodule (parent) child", "SUBMODULE (PARENT) CHILD", "submodule(parent)child", "submodule ( parent ) child"],
+        ["contains"],
+        ["module procedure impl", "MODULE PROCEDURE IMPL", "module  procedure impl"],
+        ["end procedure impl", "end procedure", "endprocedure impl", "END PROCEDURE"],
+        ["end submodule child", "end submodule", "endsubmodule", "END"],
+        ["block data bd", "BLOCK DATA BD", "blockdata bd"],
+        ["integer :: q"],
+        ["common /c/ q", "COMMON /C/ Q"],
+        ["end block data bd", "end block data", "END", "END BLOCK DATA"],
+    ],
+    "explicit-interfaces": [
+        ["module m"],
+        ["interface", "INTERFACE"],
+        ["subroutine ext(a)", "SUBROUTINE EXT(A)", "subroutine ext ( a )"],
+        ["integer, intent(in) :: a", "INTEGER, INTENT(IN) :: A"],
+        ["end subroutine ext", "end subroutine", "END SUBROUTINE EXT", "endsubroutine"],
+        ["function extf() result(r)", "FUNCTION EXTF() RESULT(R)"],
+        ["real :: r", "REAL :: R"],
+        ["end function extf", "end function", "endfunction extf"],
+        ["end interface", "END INTERFACE", "endinterface"],
+        ["interface operator(+)", "INTERFACE OPERATOR(+)", "interface operator (+)"],
+        ["module procedure addp", "MODULE PROCEDURE ADDP"],
+        ["end interface", "end interface operator(+)", "END INTERFACE"],
+        ["end module m"],
+    ],
     "misc": [
         ["subroutine s()"],
         ["use iso_c_binding, only: c_int", "USE ISO_C_BINDING, ONLY: C_INT", "use :: iso_c_binding, only: c_int",
@@ -534,6 +566,9 @@ def inventory(e, depth=0):
         v = getattr(e, l, None)
         if isinstance(v, (list, tuple)) and v:
             out[l] = [[str(getattr(x, "name", x)).lower(), inventory(x, depth + 1)] if hasattr(x, "obj") else str(x).lower() for x in v]
+            if l != "args":
+                # only the order of dummy arguments is part of the declaration
+                out[l] = sorted(out[l], key=lambda t: t[0] if isinstance(t, list) else t)
     rv = getattr(e, "retvar", None)
     if rv is not None:
         out["retvar"] = str(getattr(rv, "name", rv)).lower()
@@ -552,9 +587,24 @@ EXPECTED = {
     "types": {"modules": [["m", {"types": [["t", {"boundprocs": [["p1", {}], ["b", {}], ["a", {}], ["g", {}]],
                                                   "finalprocs": [["fin", {}]], "variables": [["c", {}]]}]]}]]},
     "interfaces": {"modules": [["m", {"interfaces": [["gen", {"modprocs": [["a", {}], ["b", {}]]}]], "absinterfaces": [["af", {}]]}]]},
+    "units": {"submodules": [["child", {"modprocedures": [["impl", {}]]}]],
+              "programs": [["main", {"subroutines": [["inner", {}]], "variables": [["n", {}]]}]],
+              "blockdata": [["bd", {"variables": [["q", {}]], "common": [["c", {"variables": ["q"]}]]}]]},
+    "explicit-interfaces": {"modules": [["m", {"interfaces": [["ext", {}], ["extf", {}], ["operator(+)", {"modprocs": [["addp", {}]]}]]}]]},
     "misc": {"subroutines": [["s", {"enums": [["", {"variables": [["e1", {}], ["e2", {}]]}]], "variables": [["x", {}], ["y", {}]],
                                     "common": [["blk", {"variables": ["x", "y"]}]], "namelists": [["nl", {"variables": ["x", "y"]}]]}]]},
 }
+
+
+def _sorted_inv(d):
+    out = {}
+    for k, v in d.items():
+        if isinstance(v, list):
+            vv = [[x[0], _sorted_inv(x[1])] if isinstance(x, list) else x for x in v]
+            out[k] = vv if k == "args" else sorted(vv, key=lambda t: t[0] if isinstance(t, list) else t)
+        else:
+            out[k] = v
+    return out
 
 
 def _facts(tname, f):
@@ -622,7 +672,7 @@ def _spelling_ob(tname):
         # anchor: the canonical spelling reports exactly what the text declares
         inv = inventory(cf)
         import json as _json
-        if _json.loads(_json.dumps(inv)) != EXPECTED[tname]:
+        if _json.loads(_json.dumps(inv)) != _sorted_inv(EXPECTED[tname]):
             ctx.report("canonical spelling: reported entities differ from the declared ones",
                        {"program": canonical, "canonical": canonical, "ford": inv, "declared": EXPECTED[tname], "template": tname}, replay_inventory)
         facts = _facts(tname, cf)
